@@ -4,8 +4,13 @@
 
 package apk
 
+//@ nonnil github.com/sassoftware/relic/v8/signers/apk.errMalformed github.com/sassoftware/relic/v8/signers/apk.errTruncated github.com/sassoftware/relic/v8/signers/apk.errTrailingData
+
 //@ func getSigBlock
-//@   property C02
+//@   property C02 C11
+//@   nopanic
+//@   requires f != nil
+//@   allocbound 0 size + 65536
 //@   ensures @directory_present_on_success ret2 == nil ==> ret0 != nil
 //@
 //@ func verify
